@@ -22,6 +22,11 @@ theorem law_next_zero (h w p) : Eqv h (.next 0 w p) p := next_zero h w p
 theorem law_prev_zero (h w p) : Eqv h (.prev 0 w p) p := prev_zero h w p
 theorem law_next_nested (h n w p) : Eqv h (.next (n+1) w p) (.next 1 w (.next n w p)) := next_succ h n w p
 theorem law_prev_nested (h n w p) : Eqv h (.prev (n+1) w p) (.prev 1 w (.prev n w p)) := prev_succ h n w p
+theorem law_next_add (h m n w p) : Eqv h (.next m w (.next n w p)) (.next (m + n) w p) := next_add h m n w p
+theorem law_prev_add (h m n w p) : Eqv h (.prev m w (.prev n w p)) (.prev (m + n) w p) := prev_add h m n w p
+/-- the n-fold abbreviation is for operators of one strength only: `> >: p` is not `2 > p`, `< <: p` is not `2 < p` -/
+theorem no_law_mixed_next : ¬ EqvT 1 (.next 1 false (.next 1 true (.atom "p"))) (.next 2 false (.atom "p")) := next_mixed_not_add
+theorem no_law_mixed_prev : ¬ EqvT 1 (.prev 1 false (.prev 1 true (.atom "p"))) (.prev 2 false (.atom "p")) := prev_mixed_not_add
 theorem law_eventually (h p) : Eqv h (.evF p) (.unt (.kw .ktrue) p) := evF_eq h p
 theorem law_always (h p) : Eqv h (.alF p) (.rel (.kw .kfalse) p) := alF_eq h p
 theorem law_eventually_past (h p) : Eqv h (.evP p) (.since (.kw .ktrue) p) := evP_eq h p
